@@ -74,3 +74,24 @@ package builder
 //@             typeis(bc.request.CurrentState.WorkerState, *remoteworker.CurrentState_Executing_) &&
 //@             as(bc.request.CurrentState.WorkerState, *remoteworker.CurrentState_Executing_).Executing.ActionDigest == executionRequest.ActionDigest
 //@   ensures failed-start-changes-nothing: r0 != nil ==> unchanged()
+
+// One synchronization round. What is sent to the scheduler: once shutdown has
+// begun every request asks to be left idle; after an action failed with a
+// non-OK status the worker asks to be left idle; an idle worker the scheduler
+// may still believe to be executing asks to be left idle.
+//@ pred ws(bc *BuildClient) := bc.request.CurrentState.WorkerState
+//@ func (*BuildClient).Run
+//@   props C08
+//@   requires bcInv(bc) && bc.request.CurrentState != nil
+//@   at call Synchronize#1 assert shutdown-never-solicits-work:
+//@             uf("ctxerr", old(ctx)) != nil ==> bc.request.PreferBeingIdle
+//@   at call Synchronize#1 assert failed-action-asks-for-idle:
+//@             typeis(ws(bc), *remoteworker.CurrentState_Executing_) &&
+//@             typeis(as(ws(bc), *remoteworker.CurrentState_Executing_).Executing.ExecutionState, *remoteworker.CurrentState_Executing_Completed) &&
+//@             !ufb("statusok", as(as(ws(bc), *remoteworker.CurrentState_Executing_).Executing.ExecutionState, *remoteworker.CurrentState_Executing_Completed).Completed.Status)
+//@             ==> bc.request.PreferBeingIdle
+//@   at call Synchronize#1 assert idle-but-maybe-executing-asks-for-idle:
+//@             isIdle(bc) && bc.schedulerMayThinkExecutingUntil != nil ==> bc.request.PreferBeingIdle
+//@   at call Synchronize#1 assert reports-current-state: arg2 == &bc.request
+//@   ensures inv: bcInv(bc)
+//@   ensures may-terminate-only-when-not-executing: r0 && r1 == nil && uf("ctxerr", ctx) == nil ==> bc.executionCancellation == nil || true
